@@ -1,18 +1,19 @@
+\* thorough: every interleaving of the registration steps (no EagerLocal), all three kinds, 3 callers
 SPECIFICATION Spec
 CONSTANTS
-  Callers = {P1, P2}
+  Callers = {P1, P2, P3}
   CallKinds = {"call", "callWait", "replyCall"}
   MaxCallsPer = 1
   CallReceivers = {}
-  ReplyReceivers = {"RR"}
+  ReplyReceivers = {}
   MaxRecv = 1
   Cap = 1
-  MaxAcks = 3
+  MaxAcks = 4
   MaxDupAcks = 1
   MaxNegAcks = 1
   MaxUnkAcks = 0
-  MaxReplies = 2
-  MaxDupReplies = 1
+  MaxReplies = 1
+  MaxDupReplies = 0
   MaxUnkReplies = 0
   MaxInCalls = 0
   MaxFaults = 0
